@@ -66,6 +66,8 @@ OpStmt(o, step) ==
     [] o[1] = "ret" -> <<Asg1(o[2], CallE("id", <<Var(o[3])>>))>>
     [] o[1] = "copy" -> <<Asg1("n", CopyE(o[2], Var(o[3]))), PrintS(<<StrL("copied"), Var("n")>>)>>
     [] o[1] = "new" -> <<Asg1(o[2], SliceLit("int", <<N(5), N(6)>>))>>
+    [] o[1] = "append" -> <<SetIdx(o[2], LenE(Var(o[2])), N(900 + step))>>
+    [] o[1] = "gap" -> <<SetIdx(o[2], Bin("+", LenE(Var(o[2])), N(1)), N(800 + step))>>
 Dump == <<ExprS(CallE("dump", <<StrL("A"), Var("A")>>)), ExprS(CallE("dump", <<StrL("B"), Var("B")>>)), ExprS(CallE("dump", <<StrL("C"), Var("C")>>))>>
 Prelude ==
   <<Func("dump", <<Param("name", "string"), Param("s", "[]int")>>, <<>>,
@@ -79,6 +81,12 @@ Prelude ==
 OpName(o) == o[1] \o o[2] \o o[3]
 Hist2 == {CaseOf("C03/alias2/" \o OpName(o1) \o "-" \o OpName(o2), Prelude \o OpStmt(o1, 1) \o Dump \o OpStmt(o2, 2) \o Dump)
           : o1 \in Ops, o2 \in Ops}
+\* store / copy / store: every three-step history over element stores (first element, a fixed index, the append idiom, one past the end, through a function)
+\* and copies between two slices (round 10: the length of the slice stored to last was cached and a copy that lengthens it went unnoticed)
+OpsStore == {<<k, x, x>> : k \in {"write0", "write4", "append", "gap", "fnwrite"}, x \in {"A", "C"}} \cup {<<"copy", "A", "C">>, <<"copy", "C", "A">>}
+HistStore == {CaseOf("C03/store3/" \o OpName(o1) \o "-" \o OpName(o2) \o "-" \o OpName(o3),
+                     Prelude \o OpStmt(o1, 1) \o Dump \o OpStmt(o2, 2) \o Dump \o OpStmt(o3, 3) \o Dump)
+              : o1 \in OpsStore, o2 \in OpsStore, o3 \in OpsStore}
 Hist3 == IF Quick THEN {}
          ELSE {CaseOf("C03/alias3/" \o OpName(o1) \o "-" \o OpName(o2) \o "-" \o OpName(o3),
                       Prelude \o OpStmt(o1, 1) \o Dump \o OpStmt(o2, 2) \o Dump \o OpStmt(o3, 3) \o Dump)
@@ -140,6 +148,6 @@ PunctCases == {CaseOf("C03/punct/" \o ToString(i), <<Def1("v", StrL(PunctVals[i]
                                                    PrintS(<<Var("n"), LenE(Var("s")), LenE(Var("d"))>>), RangeS("k", "e", Var("s"), <<PrintS(<<Var("k"), StrL("["), Var("e"), StrL("]"), LenE(Var("e"))>>)>>),
                                                    PrintS(<<StrL("["), IndexE(Var("d"), N(0)), StrL("]"), CmpE("==", IndexE(Var("d"), N(3)), Var("v")), CmpE("==", IndexE(Var("s"), N(1)), StrL(""))>>)>>)
                : i \in 1..Len(PunctVals)}
-All == PunctCases \cup Range2 \cup SubCases \cup IdxCases \cup StrOps \cup GrowCases \cup Hist2 \cup Hist3 \cup CopyCases \cup MiscCases
+All == PunctCases \cup Range2 \cup SubCases \cup IdxCases \cup StrOps \cup GrowCases \cup Hist2 \cup Hist3 \cup HistStore \cup CopyCases \cup MiscCases
 ASSUME ndJsonSerialize("fam.ndjson", SetToSeq(All))
 =============================================================================
